@@ -1,6 +1,7 @@
 import SelenModel.Lemmas.FloatLin
 import SelenModel.Lemmas.FloatEngine
 import SelenModel.Lemmas.FloatTermination
+import SelenModel.Lemmas.FloatReif
 /-
 C07 — "If a model over float or mixed variables has an assignment that satisfies every inequality
 with a margin well above the float step (and every equality exactly at a representable point), and
@@ -28,12 +29,18 @@ The true constant (found, then proved):
   does not answer "no solution" (any fuel, any pop policy); off the grid the branching drops a whole
   open interval (`C07_branching_gap_counterexample`); the bisection does NOT always terminate
   (`C07_bisection_terminates_counterexample`, finding `float-split-half-step-no-progress`), it does
-  on grid stores with depth fuel `2·fsize + 1` (`C07_bisection_terminates_partial`), whence
-  `C07_solve_finds_assignment`.
+  on grid stores with depth fuel `2·fsize + 1` (`C07_bisection_terminates_partial`); there every
+  event strictly shrinks a variable, so each propagation ends within `|agenda| + P·fsize + 1` steps
+  and `fsolve` ends in `sol` / `nosol` with budgets computed from the model
+  (`C07_solve_terminates_partial`), whence `C07_solve_finds_assignment` (the result IS `sol`).
+* which propagators keep a witness (`Keeps`): `FloatLinLe` / `FloatLinEq` (`Protected`),
+  `FloatLinNe` under `NeProt` (`keeps_linNe`), `FloatLinLeReif` under `LeReifProt`
+  (`keeps_linLeReif`), the branching constraints (`branch_keeps`).
 
 NOT covered: IEEE rounding (the same definitions at `Float` are bit-exactly the code, suite
 `float`; its exact-arithmetic oracle checks the margin statement on the real code with the margin
-`4·step·Σ|cᵢ| + 2⁻⁴⁰·magnitude`), a bound for the step budget of one propagation, and the other
+`4·step·Σ|cᵢ| + 2⁻⁴⁰·magnitude`), witness preservation by the reified `=` / `≠` rows (false in
+general: `C07_lineq_reif_width_counterexample`), and the other
 float paths of `solve` (root LP, optimisation) — those are exercised by the API-level oracle stream
 `#flapi`.
 -/
@@ -344,32 +351,54 @@ theorem C07_bisection_terminates_partial (n : Nat) (κ : Nat → Bool) (pol : Po
     fsolve n pol pf fuel ps st0 ≠ .fuel ∧ fsolve n pol pf fuel ps st0 ≠ .panic :=
   fsolve_depth_bound n κ pol pf fuel ps st0 hsh hg hfuel
 
-/-- **C07 (end to end, grid models).**  A model on the grid with a grid witness that every row
-protects, run with depth fuel `2·fsize + 1`: the search returns an assignment (or one of its
-propagations exhausted the step budget `pf`) — never "no solution", never out of depth. -/
+/-- **C07 (termination, grid models).**  On grid stores (`GridK`), with propagators that keep the
+grid, only shrink and shrink strictly on every event (`GridStrict`: proved for ALL `FloatLin*`
+propagators — the reified ones need an integer reification variable — and for the branching
+constraints: `gridStrict_linLe/linEq/linNe/linEqReif/linLeReif/linNeReif`, `gridStrict_branches`) and
+whose variables are decision variables (`TrigBelow`), `fsolve` run with the budgets computed from the
+model — depth fuel `2·fsize + 1`, propagation budget `pfNeed P fsize = (P + fsize)·fsize + P + 2` —
+answers `sol` or `nosol`: never out of depth, never out of propagation steps, never the `mid`
+assertion.  (One propagation: `fpropagate_terminates`, `|agenda| + P·fsize + 1` steps.) -/
+theorem C07_solve_terminates_partial (n : Nat) (κ : Nat → Bool) (pol : Policy) (pf fuel : Nat)
+    (ps : List (FPK Rat)) (st0 : FStore Rat)
+    (hsh : ∀ k ∈ ps, GridStrict κ k) (htr : TrigBelow n ps) (hg : GridK κ st0)
+    (hfuel : 2 * fsize n st0 + 1 ≤ fuel) (hpf : pfNeed ps.length (fsize n st0) ≤ pf) :
+    fsolve n pol pf fuel ps st0 ≠ .fuel ∧ fsolve n pol pf fuel ps st0 ≠ .pfuel ∧ fsolve n pol pf fuel ps st0 ≠ .panic := by
+  have h := fsolve_terminates n κ pol pf fuel ps st0 hsh htr hg hfuel hpf
+  exact ⟨h.1.1, h.2, h.1.2⟩
+
+/-- **C07 (end to end, grid models).**  A model on the grid with a grid witness that every
+propagator keeps, run with the budgets of `C07_solve_terminates_partial`: the search RETURNS AN
+ASSIGNMENT. -/
 theorem C07_solve_finds_assignment (n : Nat) (κ : Nat → Bool) (pol : Policy) (pf fuel : Nat)
     (ps : List (FPK Rat)) (st0 : FStore Rat) (a σ : Nat → Rat)
-    (hg : GridK κ st0) (hsh : ∀ k ∈ ps, GridShrinks κ k) (hfuel : 2 * fsize n st0 + 1 ≤ fuel)
-    (hw : WitIn κ a σ st0) (hgrid : GridWit κ a σ) (hk : ∀ k ∈ ps, Protected a σ k) :
-    (∃ leaf pc nc, fsolve n pol pf fuel ps st0 = .sol leaf pc nc) ∨ fsolve n pol pf fuel ps st0 = .pfuel := by
-  have h1 := C07_solve_not_infeasible_rows n κ pol pf fuel ps st0 a σ hw hgrid hk
-  have h2 := C07_bisection_terminates_partial n κ pol pf fuel ps st0 hsh hg hfuel
+    (hg : GridK κ st0) (hsh : ∀ k ∈ ps, GridStrict κ k) (htr : TrigBelow n ps)
+    (hfuel : 2 * fsize n st0 + 1 ≤ fuel) (hpf : pfNeed ps.length (fsize n st0) ≤ pf)
+    (hw : WitIn κ a σ st0) (hgrid : GridWit κ a σ) (hk : ∀ k ∈ ps, Keeps κ a σ k) :
+    ∃ leaf pc nc, fsolve n pol pf fuel ps st0 = .sol leaf pc nc := by
+  have h1 := C07_solve_not_infeasible n κ pol pf fuel ps st0 a σ hw hgrid hk
+  have h2 := C07_solve_terminates_partial n κ pol pf fuel ps st0 hsh htr hg hfuel hpf
   cases hr : fsolve n pol pf fuel ps st0 with
-  | sol leaf pc nc => exact Or.inl ⟨leaf, pc, nc, rfl⟩
+  | sol leaf pc nc => exact ⟨leaf, pc, nc, rfl⟩
   | nosol => exact absurd hr h1
   | fuel => exact absurd hr h2.1
-  | pfuel => exact Or.inr rfl
-  | panic => exact absurd hr h2.2
+  | pfuel => exact absurd hr h2.2.1
+  | panic => exact absurd hr h2.2.2
 
 /-- the hypotheses of the two theorems are satisfiable: `x ∈ [0, 2]`, step `1/4` (`k = 0`, `l = 8`,
 `fsize = 8`), row `x ≤ 3/4`, witness `x = 1/2` (grid point, no margin needed) -/
 example : ∃ (κ : Nat → Bool) (st0 : FStore Rat) (a σ : Nat → Rat),
-    GridK κ st0 ∧ GridShrinks κ (.linLe [1] [0] (3/4)) ∧ fsize 1 st0 = 8 ∧
+    GridK κ st0 ∧ GridStrict κ (.linLe [1] [0] (3/4)) ∧ TrigBelow 1 [.linLe [1] [0] (3/4)] ∧ fsize 1 st0 = 8 ∧
     WitIn κ a σ st0 ∧ GridWit κ a σ ∧ Protected a σ (.linLe [1] [0] (3/4)) := by
-  refine ⟨fun _ => true, fun _ => .flt { min := 0, max := 2, step := 1/4 }, fun _ => 1/2, fun _ => 1/4, ?_, ?_, ?_, ?_, ?_, ?_⟩
+  refine ⟨fun _ => true, fun _ => .flt { min := 0, max := 2, step := 1/4 }, fun _ => 1/2, fun _ => 1/4, ?_, ?_, ?_, ?_, ?_, ?_, ?_⟩
   · intro x
     exact ⟨rfl, by decide +kernel, 0, 8, by decide, by decide +kernel, by decide +kernel⟩
-  · exact gridShrinks_linLe _ _ _ _
+  · exact gridStrict_linLe _ _ _ _
+  · intro k hk i hi
+    have : k = .linLe [1] [0] (3/4) := by simpa using hk
+    subst this
+    have : i = 0 := by simpa [FPK.triggers] using hi
+    omega
   · decide +kernel
   · refine ⟨fun x => ⟨rfl, by decide +kernel, (by decide +kernel : (0 : Rat) ≤ 1/2), (by decide +kernel : (1/2 : Rat) ≤ 2)⟩, fun x => rfl⟩
   · intro x _; exact ⟨2, (by decide +kernel : (1/2 : Rat) = ((2 : Int) : Rat) * (1/4))⟩
@@ -377,12 +406,56 @@ example : ∃ (κ : Nat → Bool) (st0 : FStore Rat) (a σ : Nat → Rat),
     intro k ck xk _
     exact Or.inr ⟨2, (by decide +kernel : (1/2 : Rat) = ((2 : Int) : Rat) * (1/4))⟩
 
-/-- … and on that model the search does return an assignment (`x = 0`) -/
-example : (match fsolve 1 Policy.fifo 100 17 [FPK.linLe ([1] : List Rat) [0] (3/4)]
+/-- … and on that model the search does return an assignment (`x = 0`) with exactly those budgets:
+depth fuel `2·8 + 1 = 17`, propagation budget `pfNeed 1 8 = 75` -/
+example : (match fsolve 1 Policy.fifo 75 17 [FPK.linLe ([1] : List Rat) [0] (3/4)]
       (fun _ => .flt { min := 0, max := 2, step := 1/4 } : FStore Rat) with
     | .sol leaf _ _ => decide ((FPK.boundsF leaf 0).1 = 0)
     | _ => false) = true := by
   decide +kernel
+
+/-! ### the other float propagators
+
+`C07_solve_not_infeasible` takes `Keeps` for every posted propagator.  Besides `Protected` rows:
+`keeps_linNe` (`FloatLinNe`, hypothesis `NeProt`: coefficients `0` or `≥ 1e-12`,
+`|Σcᵢaᵢ − C| ≥ |cₖ|·(1e-4 + stepₖ) + 1e-12·(1 + Σ|cᵢ|)` — the `1e-4` is the amount by which
+`exclude_value` moves a bound), `keeps_linLeReif` (`FloatLinLeReif`, hypothesis `LeReifProt`).
+The reified `=` / `≠` rows do NOT keep every consistent witness: -/
+
+/-- the integer domain of variable `i` after the call (`none` = failure / not an integer variable) -/
+def intDomAfter (r : Option (FCtx Rat)) (i : Nat) : Option (List Int) :=
+  match r with
+  | some c' => match c'.st i with | .int d => some d | .flt _ => none
+  | none => none
+
+/-- **counterexample** (`FloatLinEqReif` contradicts an equality that holds exactly): `x ∈ [0, 5e-13]`
+with step `1e-13` (five steps wide, yet "fixed" for `compute_fixed_sum_float`, whose test is
+`|min − max| < 1e-12` whatever the step), `b ∈ {0,1}`, row `b ⇔ 10·x = 5e-12`.  The point
+`x = 5e-13, b = 1` satisfies the reification exactly, but the fixed sum is taken at the MINIMUM
+(`10·0`), differs from `C` by `5e-12 ≥ 1e-12`, and `b` is set to `0`.  (Unreachable through
+`Model`, whose steps are `≥ 1e-12`; reproduced on the real propagator with `fl.prune lineqr`.) -/
+theorem C07_lineq_reif_width_counterexample :
+    intDomAfter (FPK.prune (.linEqReif [10] [0] (1/200000000000) 1)
+      ({ st := fun i => if i = 0 then .flt { min := 0, max := 1/2000000000000, step := 1/10000000000000 } else .int [0, 1] } : FCtx Rat)) 1
+      = some [0] := by
+  decide +kernel
+
+/-- `NeProt` is satisfiable: `x ≠ 0` at `x = 1`, step `1/4` -/
+example : NeProt (fun _ => 1) (fun _ => 1/4) [1] [0] 0 := by
+  refine ⟨?_, fun _ => by decide +kernel, by simp only [sumAbs, dot]; decide +kernel, ?_⟩
+  · intro k ck xk h
+    match k, h with
+    | 0, h => simp at h; obtain ⟨rfl, rfl⟩ := h; right; decide +kernel
+    | k + 1, h => simp at h
+  · intro k ck xk h
+    match k, h with
+    | 0, h => simp at h; obtain ⟨rfl, rfl⟩ := h; simp only [sumAbs, dot]; decide +kernel
+    | k + 1, h => simp at h
+
+/-- `LeReifProt` is satisfiable (violated row, `b = 0`): `b ⇔ x ≤ 0` at `x = 1` -/
+example : LeReifProt (fun i => decide (i = 0)) (fun i => if i = 0 then 1 else 0) (fun _ => 1/4) [1] [0] 0 1 := by
+  refine LeReifProt.fails (by decide) (by decide +kernel) ?_
+  simp only [sumAbs, dot]; decide +kernel
 
 end C07
 end Selen
